@@ -83,6 +83,10 @@ class Result:
         rc = 0
         replay_dir = os.path.join(OUT, "replay")
         os.makedirs(replay_dir, exist_ok=True)
+        for old in os.listdir(replay_dir):
+            # replay files describe the last run of this property only
+            if old.startswith(self.prop + "__"):
+                os.unlink(os.path.join(replay_dir, old))
         seen_keys = set()
         for v in new:
             if v["key"] in seen_keys:
